@@ -53,7 +53,7 @@ def prop(pid, rules, explanation, not_decided, assumptions=(), trusted=('A1', 'A
 
 prop('C09',
      [('R00.dyn', RG.rule_no_dynamic), ('R09.d', RC.rule_definition), ('R03.a', RC.rule_core), ('R03.i', RC.rule_core_infinite),
-      ('R03.t', RC.rule_flag_truthiness), ('R03.b', RC.rule_mask_sites), ('R09.w', RC.rule_weak_coupling), ('R09.e', RC.rule_elementwise),
+      ('R03.t', RC.rule_flag_truthiness), ('R09.n', RC.rule_cancellation), ('R03.b', RC.rule_mask_sites), ('R09.w', RC.rule_weak_coupling), ('R09.e', RC.rule_elementwise),
       ('R09.p', RC.rule_purity), ('R09.h', RC.rule_history), ('R09.f', RC.rule_flag_reassigned), ('R09.a', RC.rule_aliases)],
      'Static analysis of pyPRISM/closure: for every AtomicClosure subclass and both values of apply_hard_core the '
      'return term of calculate(r,gamma) is extracted by abstract interpretation over canonical terms (exact '
